@@ -179,6 +179,7 @@ def check(ctx):
         deps = transitive_control_deps(body, b, cd=cd)
         found = None
         count_test = False
+        count_src = None
         for a, s, k in deps:
             if k and k[0] == "call":
                 call, neg = k[1], k[2]
@@ -190,7 +191,36 @@ def check(ctx):
                     if only_via_edge(body, a, vals, b):
                         found = call
             if k and k[0] == "bin" and k[1] in ("Eq", "Ne", "Gt", "Lt", "Le", "Ge"):
-                count_test = True
+                # the compared number is the number of productions *of the start symbol*: len() of
+                # Cfg::matching_productions(&cfg.st), or a count over productions filtered by the start symbol
+                for side in (k[2], k[3]):
+                    t = side
+                    hops = 0
+                    while t[0] in ("call", "proj") and hops < 8:
+                        hops += 1
+                        if t[0] == "proj":
+                            t = t[1]
+                            continue
+                        c2 = t[1]
+                        if (c2.path or "").endswith("Cfg::matching_productions"):
+                            reads_st = False
+                            for a2 in c2.args[1:]:
+                                rp2 = raw_operand_place(body, a2)
+                                if rp2 and any(isinstance(e, list) and e[0] == "f" and e[3] == CFG and e[2] == "st" for e in rp2[1:]):
+                                    reads_st = True
+                                t3 = operand_term(body, a2, through_calls=True)
+                                if t3[0] == "path" and t3[2] and t3[2][-1] == "st":
+                                    reads_st = True
+                            if reads_st:
+                                count_test = True
+                            else:
+                                count_src = "matching_productions of something else than cfg.st"
+                            break
+                        if (c2.path or "").split("::")[-1] in ("len", "count", "unwrap_or_default", "unwrap_or", "unwrap"):
+                            t = operand_term(body, c2.args[0]) if c2.args else ("unknown",)
+                            continue
+                        count_src = short(c2.path or "?")
+                        break
         if found is None:
             # second accepted idiom: cfg.get_non_terminal_positions().iter().any(|(pos, n)| pos.sy_index() > 0 && *n == cfg.st)
             alt = positions_idiom(facts, body, deps, b)
@@ -240,8 +270,10 @@ def check(ctx):
                       % (short(src[1].path) + "(..)" if src[0] == "call" else term_str(body, src)), where(body, found.line))
         ctx.check(count_test, "R12.1", "augment_grammar|unchanged-return-counts-start-productions",
                   "the unchanged return also depends on a comparison of the number of start productions",
-                  "the unchanged return no longer depends on the number of start productions "
-                  "(start symbol must have exactly one production)", where(body, line))
+                  "the unchanged return no longer depends on the number of productions of the start symbol%s "
+                  "(the start symbol must have exactly one production; a count taken from another non-terminal - e.g. the one "
+                  "defined first - leaves a start symbol with several alternatives unaugmented)"
+                  % (" (it compares a number obtained from %s)" % count_src if count_src else ""), where(body, line))
 
     # ------------------------------------------------------------------ R12.2
     gens = body.calls_to(GEN)
